@@ -411,6 +411,18 @@ class Engine:
         m = re.match(r"const <D as (?:distance::)?Distance>::DEFAULT_OVERSAMPLING$", tok)
         if m:
             return z3.BitVec("DEFAULT_OVERSAMPLING", 64)
+        pm = re.match(r"const (.*)::(\w+)::promoted\[(\d+)\]$", tok)
+        if pm:
+            mod = pm.group(1).split("::")[0]
+            suffix = f"::{pm.group(2)}::promoted[{pm.group(3)}]"
+            hits = [f for n, f in self.fns.items() if n.startswith("const:" + mod) and n.endswith(suffix)]
+            if len(hits) != 1:
+                raise Unknown(f"promoted constant {tok}: {len(hits)} definitions")
+            sub = self.run(hits[0], [], env={}, pc=[])
+            if len(sub) != 1 or sub[0].status != "return":
+                raise Unknown("promoted constant did not evaluate: " + tok)
+            self.encoded.discard(hits[0].name)
+            return sub[0].value
         if tok.startswith("const "):
             # function items, zero-sized constants (closures without captures), promoted statics
             name = tok[6:].strip()
